@@ -40,6 +40,8 @@ use serde_crate::{Deserialize, Serialize};
 mod argmin_param;
 mod float;
 mod hyperparams;
+#[cfg(linfa_verif)]
+pub mod verif_hooks_c12;
 
 use argmin_param::*;
 use float::Float;
